@@ -84,7 +84,7 @@ class Stats:
 
 KF11_KINDS = ("value-mismatch", "differs-from-unpartitioned", "differs-from-unmapped",
               "differs-from-plain", "output-structure", "exec-error", "contribution-multiset",
-              "output-coordinate-space")
+              "output-coordinate-space", "input-name-rebound-differently", "name-lies")
 
 
 def kf11(spec, problems):
